@@ -2,7 +2,7 @@
     first line end met with an empty current line.  First part: getfieldlen() jumps over a field without
     passing such a place. *)
 From Qv Require Import Common.Bytes Gen.GenQrdata Model.Mime Model.QrData Proofs.QrMemLemmas
-  Proofs.QrNeedRecodeProofs Proofs.QrPhaseProofs Proofs.MimeTotalProofs.
+  Proofs.QrNeedRecodeProofs Proofs.QrPhaseProofs Proofs.MimeTotalProofs Proofs.QrBoundaryProofs.
 Require Import Lia.
 
 Lemma hpos_nz : forall l a b, a <> 0 -> b <> 0 -> hpos a l = hpos b l.
@@ -495,4 +495,83 @@ Proof.
     destruct (Nat.eqb fl 0); cbn [negb] in E; [apply (D ct (fst ce, 0)); auto|].
     destruct (Nat.ltb_spec fl 2); [discriminate|].
     apply (Mono (off + fl - 2) ct (off, fl)); auto; [lia|intros _; cbn; lia].
+Qed.
+
+(* ------------------------------------------------------------------ the recorded field has the name *)
+Lemma casecmp_true m : forall lit p, casecmp_at m p lit = Ok true ->
+  (lit <> [] -> p + length lit <= length m) /\ map to_lower (sub m p (length lit)) = map to_lower lit.
+Proof.
+  induction lit as [|x lit IH]; intros p E.
+  - cbn [length]. rewrite sub_0. split; [intros H; contradiction|reflexivity].
+  - cbn [casecmp_at] in E. destruct (rd m p) as [c| |] eqn:Ec; cbn [bind] in E; try discriminate.
+    destruct (N.eqb_spec (to_lower c) (to_lower x)) as [Ex|]; [|discriminate].
+    destruct (IH (S p) E) as (H1 & H2). unfold rd in Ec. destruct (nth_error m p) as [y|] eqn:En; [|discriminate].
+    inversion Ec; subst y. cbn [length].
+    assert (Hp : p < length m) by (apply nth_error_Some; congruence).
+    split.
+    + intros _. destruct lit as [|x2 l2]; [cbn [length]; lia|]. specialize (H1 ltac:(discriminate)). cbn [length] in *. lia.
+    + assert (Hs : sub m p (S (length lit)) = c :: sub m (S p) (length lit)).
+      { unfold sub. rewrite (skipn_nth_cons m p 0%N Hp). cbn [firstn]. f_equal. apply nth_error_nth. exact En. }
+      rewrite Hs. cbn [map]. rewrite Ex, H2. reflexivity.
+Qed.
+
+Definition CTE_LOWER : bytes := map to_lower (67%N :: CTE_TAIL).   (* "content-transfer-encoding:" *)
+
+(** a recorded Content-Transfer-Encoding field starts with that name (in any case) and is as long as
+    getfieldlen() says *)
+Definition cte_named (m : bytes) (b len : nat) (f : nat * nat) : Prop :=
+  snd f <> 0 -> map to_lower (sub m (b + fst f) (length CTE_LOWER)) = CTE_LOWER /\
+                getfieldlen m (b + fst f) (len - fst f) = Ok (snd f).
+
+Lemma qh_scan_cte m b len : forall fuel off ct ce h o' ct' ce',
+  qh_scan fuel m b len off ct ce = Ok (h, o', ct', ce') -> cte_named m b len ce -> cte_named m b len ce'.
+Proof.
+  induction fuel as [|fuel IH]; intros off ct ce h o' ct' ce' E Hce; [discriminate|].
+  rewrite qh_scan_S in E.
+  assert (Rec : forall off1 c1 c2, cte_named m b len c2 ->
+            qh_scan fuel m b len off1 c1 c2 = Ok (h, o', ct', ce') -> cte_named m b len ce').
+  { intros off1 c1 c2 H2 E1. apply (IH off1 c1 c2 h o' ct' ce' E1 H2). }
+  destruct (Nat.ltb off len); [|inversion E; subst; exact Hce].
+  destruct (rd m (b + off)) as [c| |] eqn:Erd; cbn [bind] in E; try discriminate.
+  destruct (N.eqb c CR).
+  { cbv zeta in E.
+    destruct (if Nat.ltb (S off) len then do c2 <- rd m (b + S off); Ok (if N.eqb c2 LF then S (S off) else S off) else Ok (S off)) as [off1| |] eqn:Eo; cbn [bind] in E; try discriminate.
+    destruct (Nat.eqb off1 len); [apply (Rec off1 ct ce); auto|].
+    destruct (rd m (b + off1)) as [c3| |]; cbn [bind] in E; try discriminate.
+    destruct (is_eol c3); [|apply (Rec off1 ct ce); auto].
+    inversion E; subst. exact Hce. }
+  destruct (N.eqb c LF).
+  { cbv zeta in E. destruct (Nat.eqb (S off) len); [apply (Rec (S off) ct ce); auto|].
+    destruct (rd m (b + S off)) as [c3| |]; cbn [bind] in E; try discriminate.
+    destruct (is_eol c3); [|apply (Rec (S off) ct ce); auto].
+    inversion E; subst. exact Hce. }
+  match type of E with context [bind ?sk (fun off1 => qh_scan fuel m b len off1 (fst ct, 0) ce)] => set (skip := sk) in E end.
+  cbv zeta in E.
+  assert (D : forall c1 c2, cte_named m b len c2 -> (do off1 <- skip; qh_scan fuel m b len off1 c1 c2) = Ok (h, o', ct', ce') -> cte_named m b len ce').
+  { intros c1 c2 H2 E1. destruct skip as [off1| |]; cbn [bind] in E1; try discriminate. apply (Rec off1 c1 c2); auto. }
+  clearbody skip.
+  assert (Z : forall s, cte_named m b len (s, 0)) by (intros s F; cbn in F; contradiction).
+  destruct (N.eqb c 99 || N.eqb c 67) eqn:Ecc; [|apply (D ct ce); auto].
+  match type of E with context [bind ?x _] => destruct x as [isct| |]; cbn [bind] in E; try discriminate end.
+  destruct isct.
+  - destruct (getfieldlen m (b + off) (len - off)) as [fl| |]; cbn [bind] in E; try discriminate.
+    destruct (Nat.eqb fl 0); cbn [negb] in E; [apply (D (fst ct, 0) ce); auto|].
+    destruct (Nat.ltb_spec fl 2); [discriminate|].
+    apply (Rec (off + fl - 2) (off, fl) ce); auto.
+  - match type of E with context [bind ?x _] => destruct x as [iscte| |] eqn:Ecte; cbn [bind] in E; try discriminate end.
+    destruct iscte; [|apply (D ct ce); auto].
+    destruct (getfieldlen m (b + off) (len - off)) as [fl| |] eqn:Egf; cbn [bind] in E; try discriminate.
+    destruct (Nat.eqb fl 0); cbn [negb] in E; [apply (D ct (fst ce, 0)); auto|].
+    destruct (Nat.ltb_spec fl 2); [discriminate|].
+    apply (Rec (off + fl - 2) ct (off, fl)); auto.
+    intros _. cbn [fst snd]. split; [|exact Egf].
+    destruct (Nat.ltb (length CTE_TAIL) (len - off)); [|inversion Ecte].
+    destruct (casecmp_true m CTE_TAIL (b + S off) Ecte) as (Hin & Hmap).
+    specialize (Hin ltac:(discriminate)).
+    apply rd_inv in Erd as (Hlt & Hc).
+    assert (Hs : sub m (b + off) (length CTE_LOWER) = c :: sub m (b + S off) (length CTE_TAIL)).
+    { unfold sub. rewrite (skipn_nth_cons m (b + off) 0%N Hlt). replace (S (b + off)) with (b + S off) by lia.
+      change (length CTE_LOWER) with (S (length CTE_TAIL)). cbn [firstn]. f_equal. exact (eq_sym Hc). }
+    rewrite Hs. cbn [map]. rewrite Hmap. unfold CTE_LOWER. cbn [map]. f_equal.
+    apply Bool.orb_true_iff in Ecc as [Ec|Ec]; apply N.eqb_eq in Ec; rewrite Ec; reflexivity.
 Qed.
